@@ -44,6 +44,8 @@ MODELS = {
         ("MC_asbuilt_c3n2.cfg", "with the code's deviations, 3 clients, 2 addresses", INTENDED + DEVIATIONS + FAULTS),
         ("MC_asbuilt_list_c2n2.cfg", "with the code's deviations, list pool, 2 clients",
          [a for a in INTENDED if a != "DiscoverExhausted"] + DEVIATIONS),
+        ("LIVE_strict_c2n2.cfg", "intended design, liveness (LeaseEnds, AddressReturns under WF(TickExpire)), 2 clients",
+         ["TickExpire", "DiscoverPick", "RequestAckOffer", "RequestAckFree", "ReleaseOk"]),
     ],
     "thorough": [
         ("MC_strict_c3n2.cfg", "intended design, 3 clients, 2 addresses", INTENDED + ["TickExpire"]),
@@ -53,8 +55,13 @@ MODELS = {
          [a for a in INTENDED if a != "DiscoverExhausted"] + ["TickExpire"]),
         ("MC_strict_list_c3n2.cfg", "intended design, list pool", INTENDED + ["TickExpire"]),
         ("MC_asbuilt_c3n2.cfg", "with the code's deviations, 3 clients, 2 addresses", INTENDED + DEVIATIONS + FAULTS),
-        ("MC_asbuilt_c3n3.cfg", "with the code's deviations, 3 clients, 3 addresses", INTENDED + DEVIATIONS + FAULTS),
+        ("MC_asbuilt_c3n3.cfg", "with the code's deviations, 3 clients, 3 addresses",
+         [a for a in INTENDED if a != "DiscoverExhausted"] + DEVIATIONS + FAULTS),
         ("MC_asbuilt_list_c3n2.cfg", "with the code's deviations, list pool, 3 clients", INTENDED + DEVIATIONS),
+        ("LIVE_strict_c2n2.cfg", "intended design, liveness (LeaseEnds, AddressReturns under WF(TickExpire)), 2 clients",
+         ["TickExpire", "DiscoverPick", "RequestAckOffer", "RequestAckFree", "ReleaseOk"]),
+        ("LIVE_strict_c3n2.cfg", "intended design, liveness (LeaseEnds, AddressReturns under WF(TickExpire)), 3 clients",
+         ["TickExpire", "DiscoverPick", "DiscoverExhausted", "RequestAckOffer", "RequestAckFree", "ReleaseOk"]),
     ],
 }
 
@@ -75,9 +82,8 @@ EDGES = {
     "thorough": [("EX_edges_c2n2.cfg", P_C2N2, None),
                  ("EX_edges_list_c2n2.cfg", dict(P_C2N2, kind="list"), None),
                  ("EX_edges_c3n2s.cfg", P_C3N2S, None),
-                 ("EX_edges_c3n2.cfg", P_C3N2, None),
-                 ("EX_edges_c3n3s.cfg", P_C3N3S, 3),
-                 ("EX_edges_list_c3n2.cfg", dict(P_C3N2, kind="list"), 8)],
+                 ("EX_edges_c3n2.cfg", P_C3N2, 2),
+                 ("EX_edges_c3n3s.cfg", P_C3N3S, 6)],
 }
 # (cfg, adapter params, number of walks, depth)
 SIMS = {
@@ -108,6 +114,7 @@ def _decode(r, tag, kind, keep=None, offset=0):
   """Decode every keep-th exported behaviour only (decoding all of a large export is the cost)."""
   from harness.adapters_x01 import canon_exp, canon_free
   raw = r.tagged_raw(tag)
+  r.stdout, r.prints = "", []          # a large export is hundreds of MB of text: let go of it
   total = len(raw)
   if keep:
     raw = raw[offset % keep::keep]
@@ -142,7 +149,7 @@ def run(ctx):
            for cfg, _, num, depth in SIMS[ctx.tier]]
   t0 = time.time()
   phase = ctx.notes.setdefault("phase_wall_s", {})
-  results = tlc.run_many(jobs, parallel=6)
+  results = tlc.run_many(jobs, parallel=6 if quick else 5)
   phase["tlc_models_and_exports"] = round(time.time() - t0, 1)
   t0 = time.time()
   nm, ne = len(MODELS[ctx.tier]), len(EDGES[ctx.tier])
@@ -151,6 +158,8 @@ def run(ctx):
     if r.violated:
       raise tlc.TLCError("spec violates its own property %s (%s):\n%s" % (r.violated, cfg, r.error_trace))
     tlc.require_coverage(r, acts, cfg)
+    if "strict" in cfg and r.generated < 1000:
+      raise tlc.TLCError("suspiciously small model run %s: %d states generated" % (cfg, r.generated))
     if "strict" in cfg:
       # the deviations must be OFF in the intended design
       on = [a for a in DEVIATIONS + FAULTS if r.coverage.get(a, (0, 0))[1] != 0]
@@ -158,12 +167,15 @@ def run(ctx):
         raise tlc.TLCError("deviation actions enabled in the intended design %s: %s" % (cfg, on))
     ctx.add_model("Dhcpd %s (%s)" % (label, cfg), r)
   # ---- 2. spec -> code
-  for (cfg, params, keep), r in zip(EDGES[ctx.tier], results[nm:nm + ne]):
+  for k, (cfg, params, keep) in enumerate(EDGES[ctx.tier]):
+    r, results[nm + k] = results[nm + k], None
     behs, total = _decode(r, "T", params.get("kind", "simple"), keep=keep, offset=ctx.seed)
+    del r
     if not behs:
       raise tlc.TLCError("no behaviours exported by %s" % cfg)
     _replay(ctx, behs, params, cfg[:-4], base=ctx.seed % 5)
     ctx.notes["replay_" + cfg[:-4]]["exported"] = total
+    del behs
   neg = None
   for (cfg, params, num, depth), r in zip(SIMS[ctx.tier], results[nm + ne:]):
     behs, total = _decode(r, "H", params.get("kind", "simple"))
@@ -181,17 +193,18 @@ def run(ctx):
   batches = []
   for kind, cfg, share in (("simple", "Trace_simple.cfg", 2), ("list", "Trace_list.cfg", 1)):
     n = ntr * share // 3
-    traces = core.run_driver("props.X01:drive", [(ctx.seed * 100003 + i, 40 if quick else 60, kind) for i in range(n)])
+    items = [(ctx.seed * 100003 + i, 40 if quick else 60, kind) for i in range(n)]
+    traces = core.run_driver("props.X01:drive", items)
     bad1, bad2 = _corrupt(traces)
     if (bad1 is None or bad2 is None) and not ctx.violations:
       raise tlc.TLCError("no trace suitable for the negative controls (no OFFER/ACK or no effective RELEASE recorded)")
-    batches.append((kind, cfg, traces, [b for b in (bad1, bad2) if b is not None]))
+    batches.append((kind, cfg, traces, [b for b in (bad1, bad2) if b is not None], items))
   phase["trace_drivers"] = round(time.time() - t0, 1)
   t0 = time.time()
   from concurrent.futures import ThreadPoolExecutor
   with ThreadPoolExecutor(2) as ex:
     vals = list(ex.map(lambda b: tracecheck.validate("dhcpd", "TraceDhcpd", b[1], b[2] + b[3], tag="X01"), batches))
-  for (kind, cfg, traces, bads), (r, rej) in zip(batches, vals):
+  for (kind, cfg, traces, bads, items), (r, rej) in zip(batches, vals):
     n = len(traces)
     ctx.add_model("TraceDhcpd %s (validation of %d implementation traces)" % (kind, n), r)
     rejected = {t for t, _ in rej}
@@ -205,7 +218,7 @@ def run(ctx):
       ev = traces[t][matched]
       ctx.report(dict(action=ev["a"], via="trace", kind=kind, reply=str(ev["obs"].get("reply", {}).get("t")),
                       fault=bool(ev["obs"].get("fault")), wf=ev["wf"]),
-                 dict(trace=traces[t], failing_step=matched, config=cfg,
+                 dict(trace=traces[t], failing_step=matched, config=cfg, driver_arg=list(items[t]),
                       note="TLC rejected the trace at this event"))
     ctx.traces += len(traces)
     for t in traces[:2000]:
@@ -371,6 +384,21 @@ def drive(arg):
       hint[c] = obs["reply"]["yi"]
     tr.append(dict(a=a, args=args, obs=obs, wf=wf))
   return tr
+
+
+def replay_one(ctx, rep):
+  """`./check X01 --replay FILE`: re-run one recorded failure against the current tree."""
+  if "behaviour" in rep:
+    core.replay(ctx, rep["adapter"], [rep["behaviour"]], params=rep.get("params"), procs=1)
+    return
+  arg = tuple(rep["driver_arg"])
+  tr = drive(arg)                    # the same seeded client population, on the current tree
+  r, rej = tracecheck.validate("dhcpd", "TraceDhcpd", rep["config"], [tr], tag="X01")
+  for t, matched in rej:
+    ev = tr[matched]
+    ctx.report(dict(action=ev["a"], via="trace", kind=arg[2], reply=str(ev["obs"].get("reply", {}).get("t")),
+                    fault=bool(ev["obs"].get("fault")), wf=ev["wf"]),
+               dict(trace=tr, failing_step=matched, config=rep["config"], driver_arg=list(arg)))
 
 
 # --------------------------------------------------------------------------
